@@ -161,6 +161,36 @@ theorem center_map_affine (a b : K) (x : List K) :
     simp only [Function.comp]
     ring
 
+/-- inner product of two vectors from each of which a constant is subtracted (round 7) -/
+theorem dot_map_sub_sub (d e : K) (u v : List K) (h : u.length = v.length) :
+    dot (u.map (· - d)) (v.map (· - e)) = dot u v - e * u.sum - d * v.sum + u.length * (d * e) := by
+  induction u generalizing v with
+  | nil => cases v with
+    | nil => simp
+    | cons b v => simp at h
+  | cons a u ih => cases v with
+    | nil => simp at h
+    | cons b v =>
+      simp only [List.length_cons, Nat.add_right_cancel_iff] at h
+      simp only [List.map_cons, dot_cons, List.sum_cons, List.length_cons, ih v h]
+      push_cast
+      ring
+
+/-- a mean-removed vector sums to zero -/
+theorem sum_center (x : List K) : (center x).sum = 0 := by
+  cases x with
+  | nil => simp [center]
+  | cons c t =>
+    have hn : ((c :: t).length : K) ≠ 0 := by
+      simp only [List.length_cons]; push_cast; positivity
+    have h := sum_map_affine (1 : K) (-(mean (c :: t))) (c :: t)
+    have e : center (c :: t) = (c :: t).map (fun s => 1 * s + -(mean (c :: t))) := by
+      unfold center; apply List.map_congr_left; intro s _; ring
+    rw [e, h]
+    unfold mean
+    field_simp
+    ring
+
 end dot
 
 theorem cosine_scale_left {c : ℝ} (hc : 0 < c) (x y : List ℝ) :
